@@ -8,6 +8,7 @@ import Sds.Model.WM
 import Sds.Model.RL
 import Sds.Model.Writer
 import Sds.Model.Mapper
+import Sds.Model.Iter
 import Sds.Spec.Bits
 
 namespace Sds.Driver
